@@ -285,6 +285,7 @@ pub struct World {
     pub pool: std::collections::BTreeMap<u32, crate::net::Msg>,
     pub sim_time: u64,
     pub scratch: Option<std::path::PathBuf>,
+    pub made_read_only: bool,
 }
 
 impl Drop for World {
@@ -425,6 +426,7 @@ impl World {
             pool: Default::default(),
             sim_time: 0,
             scratch: None,
+            made_read_only: false,
         };
         let scratch = if cfg.backend == crate::disk::Backend::DiskFs {
             static CTR: std::sync::atomic::AtomicU64 = std::sync::atomic::AtomicU64::new(0);
@@ -745,6 +747,11 @@ impl World {
                         self.scan_and_judge(n, "post-step");
                     }
                 }
+            }
+            // C12: once a writer has been made read-only its secret key must never reappear in
+            // any file, whatever is done with the read-only instance afterwards
+            if n == 0 && self.made_read_only && !self.nodes[0].dead {
+                self.check_no_secret(0, "later, on the read-only core");
             }
             if self.cfg.judge_tree {
                 crate::c05::judge_storage(self, n);
@@ -1101,6 +1108,9 @@ impl World {
                 }
                 if was && had_entries {
                     self.stats.probe("mro_with_unflushed_entries");
+                }
+                if was && n == 0 {
+                    self.made_read_only = true;
                 }
                 self.check_no_secret(n, "after make_read_only");
                 self.expect_events(n, "make_read_only", &[]);
